@@ -209,6 +209,10 @@ pub fn run_chunked(total: usize, chunk: usize) -> (Vec<serde_json::Value>, Vec<u
         };
         let (mut child, out, job) = running.swap_remove(i);
         let st = child.wait().expect("wait");
+        if std::env::var("VERIF_CHUNK_TRACE").is_ok() {
+            let up = std::fs::read_to_string("/proc/uptime").unwrap_or_default();
+            eprintln!("chunk {}..{} done at {} ok={} queue={} running={}", job.0, job.1, up.split(' ').next().unwrap_or(""), st.success(), queue.len(), running.len());
+        }
         if st.success() {
             match std::fs::read_to_string(&out).ok().and_then(|s| serde_json::from_str(&s).ok()) {
                 Some(v) => results.push(v),
